@@ -1509,3 +1509,523 @@ Section Bare.
     - constructor; auto. intros y. cbn. unfold upd. destruct (Nat.eqb_spec y x); [subst|]; reflexivity.
   Qed.
 End Bare.
+
+Section BareSteps.
+  Variables (t : tid) (c : sid).
+
+  Lemma outy_td_tail s3 k g t' : k_waiter (tasks s3 t) = None -> Outy t c s3 (td_tail s3 k g t').
+  Proof.
+    intros Hw. unfold td_tail.
+    set (s4 := match g_fut (groups s3 g) with
+               | Some f0 => match g_tasks (groups s3 g) with [] => fut_complete s3 f0 (FRes 0) | _ :: _ => s3 end
+               | None => s3 end).
+    assert (K4 : Outy t c s3 s4 /\ tasks s4 t = tasks s3 t).
+    { unfold s4. destruct (g_fut (groups s3 g)); [|split; [apply outy_refl|reflexivity]].
+      destruct (g_tasks (groups s3 g)); [split; [apply outy_fut_complete|apply tsame_fut_complete]|
+                                         split; [apply outy_refl|reflexivity]]. }
+    clearbody s4. destruct K4 as [K4 E4].
+    assert (Hw4 : k_waiter (tasks s4 t) = None) by now rewrite E4.
+    assert (Kc : forall a, k_waiter (tasks a t) = None ->
+                 Outy t c a (if eff_cancelled a (g_scope (groups a g)) then a
+                             else scope_cancel a (g_scope (groups a g)) false)).
+    { intros a Ha. destruct (eff_cancelled a _); [apply outy_refl|now apply outy_scope_cancel]. }
+    assert (Kxc : forall e, Outy t c s4 (let s5 := upd_group s4 g (fun x => gr_excs (g_excs x ++ [(t', e)]) x) in
+                                         if eff_cancelled s5 (g_scope (groups s5 g)) then s5
+                                         else scope_cancel s5 (g_scope (groups s5 g)) false)).
+    { intros e. cbv zeta. apply (outy_trans t c s4 (upd_group s4 g (fun x => gr_excs (g_excs x ++ [(t', e)]) x)));
+        [apply outy_upd_group|apply Kc; exact Hw4]. }
+    apply (outy_trans t c s3 s4); [exact K4|].
+    destruct (k_done k) as [[v|e|e]|].
+    - destruct (k_startfut k) as [f0|]; [|apply outy_refl].
+      destruct (f_st (futs s4 f0)); try apply outy_refl. apply outy_fut_complete.
+    - destruct (k_startfut k) as [f0|].
+      + destruct (f_st (futs s4 f0)).
+        * apply outy_fut_complete.
+        * destruct (is_cancel e); [now apply Kc|apply Kxc].
+        * destruct (is_cancel e); [now apply Kc|apply Kxc].
+        * destruct (is_cancel e); [apply outy_refl|apply Kxc].
+      + destruct (is_cancel e); [now apply Kc|apply Kxc].
+    - destruct (k_startfut k) as [f0|].
+      + destruct (f_st (futs s4 f0)).
+        * apply outy_fut_complete.
+        * destruct (is_cancel e); [now apply Kc|apply Kxc].
+        * destruct (is_cancel e); [now apply Kc|apply Kxc].
+        * destruct (is_cancel e); [apply outy_refl|apply Kxc].
+      + destruct (is_cancel e); [now apply Kc|apply Kxc].
+    - destruct (k_startfut k) as [f0|]; [|apply outy_refl].
+      destruct (f_st (futs s4 f0)); try apply outy_refl. apply outy_fut_complete.
+  Qed.
+
+  Lemma outy_td_struct a t' g :
+    Tree a -> (forall x, s_host (scopes a x) <> Some t') -> t' <> t -> Outy t c a (td_struct a t' g).
+  Proof.
+    intros T Hn Ht G. pose proof (out_td_struct t 0 c a t' g T Hn Ht G) as [G' _].
+    assert (Ek : tasks (td_struct a t' g) t = tasks a t).
+    { unfold td_struct. destruct (k_cur (tasks a t')); cbn; unfold upd; (destruct (Nat.eqb_spec t t'); [congruence|reflexivity]). }
+    split; [exact G'|]. split; [now apply bym_exact|].
+    intros _ Tk _. apply (trk_view t c a); [| now rewrite Ek|now rewrite Ek|exact Tk].
+    intros y. unfold td_struct. destruct (k_cur (tasks a t')) as [x|]; cbn; [|reflexivity].
+    unfold upd. destruct (Nat.eqb_spec y x); [subst|]; reflexivity.
+  Qed.
+
+  Lemma outy_resume_simple a t' fo :
+    t' <> t -> simple_ctl (k_ctl (tasks a t')) = true -> Outy t c a (fst (resume a t' fo)).
+  Proof.
+    intros Ht Hs G.
+    (* the structural part is the one proved for the future-based case, for any future id below nfut *)
+    assert (Hf : 0 < nfut a \/ nfut a = 0) by lia.
+    pose proof (rsh_resume_simple a t' fo Hs) as _.
+    unfold resume in *. pose proof (incoming_ctl a t' fo) as Ec.
+    pose proof (dq_incoming a t' fo) as Q0. pose proof (treq_incoming a t' fo) as T0.
+    pose proof (kq_incoming a t' fo) as Kq0.
+    assert (E0 : tasks (fst (incoming a t' fo)) t = tasks a t).
+    { unfold incoming. cbn. unfold upd. destruct (Nat.eqb_spec t t'); [congruence|reflexivity]. }
+    assert (Rn : running (fst (incoming a t' fo)) = Some t') by reflexivity.
+    destruct (incoming a t' fo) as [s inc]. cbn [fst] in *. rewrite Ec.
+    assert (G0 : Good t s).
+    { apply (Good_treq t a s G T0); [apply (KInv_kq a); [apply G|exact Kq0]|].
+      rewrite Rn. intros E. inversion E. now apply Ht. }
+    assert (Fin : forall b, treq s b -> KInv b -> running b <> Some t -> tasks b t = tasks s t -> dq s b ->
+                            Good t b /\ bym t a b /\ (elig_y t a -> trk t c a -> k_must (tasks b t) = false -> trk t c b)).
+    { intros b Tb Kb Rb Eb Qb. split; [now apply (Good_treq t s b G0)|]. split; [apply bym_exact; now rewrite Eb|].
+      intros _ Tk _. apply (trk_dq t c s); [exact Qb|]. now apply (trk_dq t c a). }
+    assert (Ret : forall s1 r, treq s s1 -> KInv s1 -> tasks s1 t = tasks s t -> dq s s1 ->
+              Good t (fst (ret_to_puppet s1 t' r)) /\ bym t a (fst (ret_to_puppet s1 t' r)) /\
+              (elig_y t a -> trk t c a -> k_must (tasks (fst (ret_to_puppet s1 t' r)) t) = false ->
+               trk t c (fst (ret_to_puppet s1 t' r)))).
+    { intros s1 r T1 K1 E1 Q1. apply Fin.
+      - eapply treq_trans; [exact T1|apply treq_ret_to_puppet].
+      - now apply K_ret.
+      - cbn. discriminate.
+      - rewrite tsame_ret_other by exact Ht. exact E1.
+      - eapply dq_trans; [exact Q1|apply dq_ret_to_puppet]. }
+    destruct (k_ctl (tasks a t')) as [| |[| |x]| | | | | | |] eqn:Ectl; try discriminate.
+    - cbn [fst].
+      set (s1 := match inc with Some e => upd_task s t' (tk_held (Some e)) | None => s end).
+      assert (H1 : treq s s1 /\ KInv s1 /\ tasks s1 t = tasks s t /\ dq s s1).
+      { unfold s1. destruct inc; [|split; [apply treq_refl|split; [apply G0|split; [reflexivity|apply dq_refl]]]].
+        split; [apply treq_upd_task; intros k; reflexivity|].
+        split; [apply (KInv_kq s); [apply G0|apply kq_upd_task; intros k; now left]|].
+        split; [now apply tsame_upd_other|apply dq_upd_task; intros k; now split]. }
+      destruct H1 as [T1 [K1 [E1 Q1]]]. apply Fin.
+      + eapply treq_trans; [exact T1|]. eapply treq_trans; [apply treq_park|apply treq_set_running].
+      + apply (KInv_kq (park s1 t')); [now apply K_park|apply kq_set_running].
+      + cbn. discriminate.
+      + cbn [tasks set_running]. rewrite tsame_park_other by exact Ht. exact E1.
+      + eapply dq_trans; [exact Q1|]. eapply dq_trans; [apply dq_park|apply dq_set_running].
+    - apply Ret; [apply treq_refl|apply G0|reflexivity|apply dq_refl].
+    - destruct inc; [apply Ret; [apply treq_refl|apply G0|reflexivity|apply dq_refl]|].
+      cbn [fst blocked]. apply Fin.
+      + eapply treq_trans; [apply treq_bare_yield|apply treq_set_running].
+      + apply (KInv_kq s); [apply G0|]. eapply kq_trans; [apply kq_bare_yield|apply kq_set_running].
+      + cbn. discriminate.
+      + reflexivity.
+      + eapply dq_trans; [apply dq_call_soon|apply dq_set_running].
+    - apply Ret; [apply treq_timer_cancel|apply (KInv_kq s); [apply G0|apply kq_tasks_same; reflexivity]|reflexivity|
+                  apply dq_timer_cancel].
+    - apply Ret; [apply treq_event_unwait|apply (KInv_kq s); [apply G0|apply kq_event_unwait]| |apply dq_event_unwait].
+      destruct f; reflexivity.
+    - cbn [fst]. split; [exact G|]. split; [apply bym_refl|auto].
+  Qed.
+End BareSteps.
+
+Section SpinLatency.
+  Variables (t : tid) (c : sid).
+
+  Definition bystander_y (s : st) (h : handle) : Prop :=
+    op_ok s (ARun h) = true /\ h <> HStep t /\
+    match h with
+    | HStep t' | HWake t' _ => t' <> t /\ simple_ctl (k_ctl (tasks s t')) = true
+    | _ => True
+    end.
+
+  Lemma callback_outy s h r :
+    reach_ok s -> k_ctl (tasks s t) <> CDone -> k_waiter (tasks s t) = None ->
+    ready s = h :: r -> bystander_y s h ->
+    Outy t c s (run_head s) /\
+    (h = HDeliver c -> Good t s -> elig_y t s -> trk t c s -> k_must (tasks (run_head s) t) = true).
+  Proof.
+    intros R Nd Hw E [Hok [Hne Hk]].
+    destruct (reach_sinv s R) as [[T C] _].
+    set (s1 := set_ready s r).
+    assert (O1 : Outy t c s s1).
+    { intros G. split; [|split].
+      - apply (Good_same t s s1 G); try reflexivity; [apply G|]. intros y; now repeat split.
+      - now apply bym_exact.
+      - intros _ Tk _. apply (trk_view t c s s1); auto. }
+    rewrite (run_head_cons s h r E).
+    destruct h as [t'|t' f'|c'|t'|g tm|x tm].
+    - split; [|discriminate]. destruct Hk as [Ht Hs]. apply (outy_trans t c s s1); [exact O1|]. now apply outy_resume_simple.
+    - split; [|discriminate]. destruct Hk as [Ht Hs]. apply (outy_trans t c s s1); [exact O1|]. now apply outy_resume_simple.
+    - cbn [fst]. split.
+      + apply (outy_trans t c s s1); [exact O1|]. apply (outy_trans t c s1 (set_running s1 None)); [apply outy_set_running|].
+        apply (outy_trans t c _ (deliver_top (set_running s1 None) c')); [now apply outy_deliver_top|apply outy_set_running].
+      + intros Ec G El Tk. inversion Ec; subst c'.
+        change (tasks (set_running (deliver_top (set_running s1 None) c) None) t) with (tasks (deliver_top (set_running s1 None) c) t).
+        destruct (O1 G) as [G1 _].
+        assert (Tk1 : trk t c (set_running s1 None)) by (apply (trk_view t c s); auto).
+        apply (deliver_hits_y t (set_running s1 None) c); [now apply Good_set_running|exact El|apply Tk1].
+    - split; [|discriminate]. cbn [fst]. fold s1. rewrite run_task_done_eq.
+      assert (Hin : In (HTaskDone t') (ready s)) by (rewrite E; now left).
+      destruct (c_td _ C t' Hin) as [A' Ed].
+      assert (Ht : t' <> t) by (intros ->; contradiction).
+      destruct (c_ok _ C t' A') as [_ [_ [_ [Kd _]]]]. specialize (Kd Ed).
+      apply (outy_trans t c s s1); [exact O1|].
+      destruct (k_group (tasks s1 t')) as [g|]; [|apply outy_set_running].
+      apply (outy_trans t c s1 (set_running s1 None)); [apply outy_set_running|].
+      apply (outy_trans t c _ (td_struct (set_running s1 None) t' g)).
+      + apply outy_td_struct; [|exact Kd|exact Ht].
+        apply (Tree_treq s); [exact T|]. eapply treq_trans; [apply treq_set_ready|apply treq_set_running].
+      + apply outy_td_tail. unfold td_struct. destruct (k_cur _); cbn; unfold upd;
+          (destruct (Nat.eqb_spec t t'); [congruence|exact Hw]).
+    - split; [|discriminate]. cbn [fst]. apply (outy_trans t c s s1); [exact O1|]. apply outy_fut_complete.
+    - split; [|discriminate]. cbn [fst]. apply (outy_trans t c s s1); [exact O1|].
+      apply (outy_trans t c s1 (set_running s1 None)); [apply outy_set_running|].
+      apply (outy_trans t c _ (scope_timeout (set_running s1 None) x)); [now apply outy_scope_timeout|apply outy_set_running].
+  Qed.
+
+  Record LInvY (s : st) : Prop := {
+    ly_reach : reach_ok s;
+    ly_run : running s <> Some t;
+    ly_waiter : k_waiter (tasks s t) = None;
+    ly_started : k_started (tasks s t) = true;
+    ly_done : k_done (tasks s t) = None;
+    ly_ctl : k_ctl (tasks s t) = CYield YCkIf;
+    ly_step : In (HStep t) (ready s);
+    ly_cases : k_must (tasks s t) = true \/ (k_must (tasks s t) = false /\ trk t c s)
+  }.
+
+  Fixpoint cycle_oky (n : nat) (s : st) : Prop :=
+    match n with
+    | 0 => True
+    | S m => match ready s with
+             | [] => True
+             | h :: _ => (h = HStep t \/ bystander_y s h) /\ cycle_oky m (run_head s)
+             end
+    end.
+
+  Lemma LInvY_Good s : LInvY s -> Good t s.
+  Proof.
+    intros L. pose proof (reach_tree s (ly_reach _ L)) as T. constructor.
+    - now apply Tree_TreeL.
+    - destruct (ly_reach _ L) as [ops [_ ->]]. apply reach_kinv.
+    - apply L.
+    - intros y Ha. destruct (tr_host_act _ T y Ha) as [x [E _]]. rewrite E. discriminate.
+  Qed.
+
+  Lemma linvy_step s h r :
+    LInvY s -> ready s = h :: r -> bystander_y s h ->
+    LInvY (run_head s) /\
+    (h = HDeliver c -> k_must (tasks (run_head s) t) = true) /\
+    (k_must (tasks s t) = true -> k_must (tasks (run_head s) t) = true).
+  Proof.
+    intros L E B. pose proof (LInvY_Good s L) as G.
+    assert (Nd : k_ctl (tasks s t) <> CDone) by (rewrite (ly_ctl _ L); discriminate).
+    destruct (callback_outy s h r (ly_reach _ L) Nd (ly_waiter _ L) E B) as [O Hd].
+    destruct (O G) as [G' [By Tp]]. pose proof (bm_core _ _ _ By) as Ec.
+    assert (R' : reach_ok (run_head s)).
+    { unfold run_head. rewrite E. apply reach_ok_step; [apply L|apply B]. }
+    assert (El : k_must (tasks s t) = false -> elig_y t s) by (intros Hm; repeat split; try apply L; exact Hm).
+    split; [|split; [|apply (bm_must _ _ _ By)]].
+    - constructor.
+      + exact R'.
+      + apply G'.
+      + rewrite (tcore_waiter _ _ Ec). apply L.
+      + rewrite (tcore_started _ _ Ec). apply L.
+      + rewrite (tcore_done _ _ Ec). apply L.
+      + rewrite (tcore_ctl _ _ Ec). apply L.
+      + destruct B as [_ [Hne Hk]].
+        destruct (rsh_run_head s h r E) as [P [new [Er HP]]]; [destruct h; try exact I; apply Hk|].
+        rewrite Er. apply in_or_app. left. apply filter_In. split; [|now apply HP].
+        pose proof (ly_step _ L) as Hin. rewrite E in Hin. destruct Hin as [Hin|Hin]; [now elim Hne|exact Hin].
+      + destruct (k_must (tasks (run_head s) t)) eqn:Em; [now left|right]. split; [reflexivity|].
+        destruct (ly_cases _ L) as [Hm|[Hm Tk]]; [rewrite (bm_must _ _ _ By Hm) in Em; discriminate|].
+        now apply Tp; [apply El| |].
+    - intros Eh. destruct (ly_cases _ L) as [Hm|[Hm Tk]]; [now apply (bm_must _ _ _ By)|].
+      apply Hd; [exact Eh|exact G|now apply El|exact Tk].
+  Qed.
+
+  (* t's own step while no request is recorded: checkpoint_if_cancelled yields once more *)
+  Lemma own_eq s r :
+    ready s = HStep t :: r -> k_must (tasks s t) = false -> k_ctl (tasks s t) = CYield YCkIf ->
+    run_head s =
+    set_running (bare_yield (set_running (upd_task (set_ready s r) t
+                   (fun x => tk_must false (k_msg x) (tk_waiter None x))) (Some t)) t) None.
+  Proof.
+    intros E Hm Hc. rewrite (run_head_cons s _ r E). set (s1 := set_ready s r).
+    unfold resume. pose proof (incoming_ctl s1 t None) as Ec.
+    assert (Hi : incoming s1 t None =
+                 (set_running (upd_task s1 t (fun x => tk_must false (k_msg x) (tk_waiter None x))) (Some t), None)).
+    { unfold incoming. change (tasks s1 t) with (tasks s t). now rewrite Hm. }
+    rewrite Hi in *. cbn [fst] in Ec. rewrite Ec. change (tasks s1 t) with (tasks s t). rewrite Hc. reflexivity.
+  Qed.
+
+  Lemma own_result si r :
+    ready si = HStep t :: r -> k_must (tasks si t) = true -> k_ctl (tasks si t) = CYield YCkIf ->
+    exists o, snd (step si (ARun (HStep t))) = RExc (ECancel o).
+  Proof.
+    intros E Hm Hc. exists (k_msg (tasks si t)). cbn [step actor]. unfold run_handle. rewrite E.
+    cbn [existsb remove_first]. rewrite handle_eqb_refl. cbn [orb negb]. set (s1 := set_ready si r).
+    unfold resume. pose proof (incoming_ctl s1 t None) as Ec.
+    assert (Hi : snd (incoming s1 t None) = Some (ECancel (k_msg (tasks si t)))).
+    { unfold incoming. cbn [snd]. change (tasks s1 t) with (tasks si t). now rewrite Hm. }
+    destruct (incoming s1 t None) as [s2 inc]. cbn [fst snd] in *. subst inc. rewrite Ec.
+    change (tasks s1 t) with (tasks si t). rewrite Hc. reflexivity.
+  Qed.
+
+  Lemma linvy_own s r :
+    LInvY s -> ready s = HStep t :: r -> k_must (tasks s t) = false ->
+    LInvY (run_head s) /\ k_must (tasks (run_head s) t) = false.
+  Proof.
+    intros L E Hm.
+    assert (R' : reach_ok (run_head s)).
+    { rewrite (run_head_step s _ r E). apply reach_ok_step; [apply L|reflexivity]. }
+    revert R'. rewrite (own_eq s r E Hm (ly_ctl _ L)). intros R'.
+    set (s' := set_running _ None) in *.
+    assert (Et : tasks s' t = tk_must false (k_msg (tasks s t)) (tk_waiter None (tasks s t))).
+    { unfold s'. cbn. unfold upd. now rewrite Nat.eqb_refl. }
+    split; [|now rewrite Et].
+    constructor.
+    - exact R'.
+    - discriminate.
+    - now rewrite Et.
+    - rewrite Et. apply L.
+    - rewrite Et. apply L.
+    - rewrite Et. apply L.
+    - unfold s'. cbn. apply in_or_app. right. now left.
+    - right. split; [now rewrite Et|].
+      destruct (ly_cases _ L) as [H|[_ Tk]]; [congruence|].
+      apply (trk_view t c s s'); [reflexivity|now rewrite Et|now rewrite Et|exact Tk].
+  Qed.
+
+  Definition foundy (tr : list (st * handle)) : Prop :=
+    exists si, In (si, HStep t) tr /\ LInvY si /\ k_must (tasks si t) = true.
+
+  Lemma simple_of s h : LInvY s -> (h = HStep t \/ bystander_y s h) ->
+    match h with HStep t' | HWake t' _ => simple_ctl (k_ctl (tasks s t')) = true | _ => True end.
+  Proof.
+    intros L [->|[_ [_ Hk]]]; [now rewrite (ly_ctl _ L)|]. destruct h; try exact I; apply Hk.
+  Qed.
+
+  (* one callback of a covered cycle, seen from t: either t's own step runs with a recorded request (found), or
+     the invariant is kept, a recorded request stays recorded, and the delivery callback of c records one *)
+  Lemma linvy_any s h r :
+    LInvY s -> ready s = h :: r -> (h = HStep t \/ bystander_y s h) ->
+    (h = HStep t /\ k_must (tasks s t) = true) \/
+    (LInvY (run_head s) /\
+     (h = HDeliver c -> k_must (tasks (run_head s) t) = true) /\
+     (k_must (tasks s t) = true -> k_must (tasks (run_head s) t) = true)).
+  Proof.
+    intros L E [->|B].
+    - destruct (k_must (tasks s t)) eqn:Hm; [left; now split|right].
+      destruct (linvy_own s r L E Hm) as [L' Hm']. split; [exact L'|]. split; [discriminate|discriminate].
+    - right. now apply (linvy_step s h r).
+  Qed.
+
+  Lemma phasey_keep n : forall s, LInvY s -> k_must (tasks s t) = true -> cycle_oky n s ->
+    foundy (heads n s) \/ (LInvY (iter n run_head s) /\ k_must (tasks (iter n run_head s) t) = true).
+  Proof.
+    induction n as [|n IH]; intros s L Hm Ok; [right; now split|].
+    destruct (ready s) as [|h r] eqn:E.
+    { exfalso. pose proof (ly_step _ L) as Hin. rewrite E in Hin. destruct Hin. }
+    cbn [cycle_oky] in Ok. rewrite E in Ok. destruct Ok as [Hk Ok].
+    destruct (linvy_any s h r L E Hk) as [[-> _]|[L' [_ Keep]]].
+    - left. exists s. split; [rewrite (heads_cons n s _ r E); now left|now split].
+    - cbn [iter]. destruct (IH (run_head s) L' (Keep Hm) Ok) as [[si [Hi Hs]]|Hr].
+      + left. exists si. split; [rewrite (heads_cons n s h r E); now right|exact Hs].
+      + right. exact Hr.
+  Qed.
+
+  Lemma phasey_step n : forall s pre post, LInvY s -> k_must (tasks s t) = true ->
+    ready s = pre ++ HStep t :: post -> length pre < n -> cycle_oky n s -> foundy (heads n s).
+  Proof.
+    induction n as [|n IH]; intros s pre post L Hm E Hl Ok; [lia|].
+    destruct pre as [|h pre]; cbn [app] in E.
+    - exists s. split; [rewrite (heads_cons n s _ _ E); now left|now split].
+    - cbn [cycle_oky] in Ok. rewrite E in Ok. destruct Ok as [Hk Ok].
+      destruct (linvy_any s h _ L E Hk) as [[-> _]|[L' [_ Keep]]].
+      + exists s. split; [rewrite (heads_cons n s _ _ E); now left|now split].
+      + destruct (position_step s h pre (HStep t) post E eq_refl (simple_of s h L Hk)) as [pre' [post' [E' Hl']]].
+        cbn [length] in Hl.
+        destruct (IH (run_head s) pre' post' L' (Keep Hm) E' ltac:(lia) Ok) as [si [Hi Hs]].
+        exists si. split; [rewrite (heads_cons n s h _ E); now right|exact Hs].
+  Qed.
+
+  Lemma phasey_deliver n : forall s pre post, LInvY s ->
+    ready s = pre ++ HDeliver c :: post -> length pre < n -> cycle_oky n s ->
+    foundy (heads n s) \/ (LInvY (iter n run_head s) /\ k_must (tasks (iter n run_head s) t) = true).
+  Proof.
+    induction n as [|n IH]; intros s pre post L E Hl Ok; [lia|].
+    destruct (k_must (tasks s t)) eqn:Hm; [now apply phasey_keep|].
+    destruct pre as [|h pre]; cbn [app] in E.
+    - cbn [cycle_oky] in Ok. rewrite E in Ok. destruct Ok as [Hk Ok].
+      destruct (linvy_any s _ _ L E Hk) as [[Eh _]|[L' [Hd _]]]; [discriminate|]. cbn [iter].
+      destruct (phasey_keep n (run_head s) L' (Hd eq_refl) Ok) as [[si [Hi Hs]]|Hr].
+      + left. exists si. split; [rewrite (heads_cons n s _ _ E); now right|exact Hs].
+      + right. exact Hr.
+    - cbn [cycle_oky] in Ok. rewrite E in Ok. destruct Ok as [Hk Ok].
+      destruct (linvy_any s h _ L E Hk) as [[_ Hm']|[L' _]]; [congruence|].
+      destruct (position_step s h pre (HDeliver c) post E eq_refl (simple_of s h L Hk)) as [pre' [post' [E' Hl']]].
+      cbn [length] in Hl. cbn [iter].
+      destruct (IH (run_head s) pre' post' L' E' ltac:(lia) Ok) as [[si [Hi Hs]]|Hr].
+      + left. exists si. split; [rewrite (heads_cons n s h _ E); now right|exact Hs].
+      + right. exact Hr.
+  Qed.
+End SpinLatency.
+
+(* C03 ckif_spin_terminates.  A task spinning on checkpoint_if_cancelled (suspended in the bare yield of
+   CYield YCkIf, its step callback scheduled) that reaches a cancelled, hosted scope c is resumed with a
+   cancellation within the current and the next FIFO cycle -- so the spin makes at most one more round --
+   provided the callbacks of these two cycles are of the covered kinds (cycle_oky: t's own step; or, for other
+   tasks, delivery, task-done, sleep-timer and deadline callbacks and resumptions of tasks that go straight back
+   to their program or yield again). *)
+Theorem ckif_spin_terminates t c s :
+  reach_ok s -> running s <> Some t ->
+  s_cancelled (scopes s c) = true -> s_host (scopes s c) <> None -> reaches s t c ->
+  k_started (tasks s t) = true -> k_waiter (tasks s t) = None ->
+  k_ctl (tasks s t) = CYield YCkIf -> In (HStep t) (ready s) ->
+  cycle_oky t (length (ready s)) s -> cycle_oky t (length (ready (fifo_cycle s))) (fifo_cycle s) ->
+  exists si,
+    In (si, HStep t) (heads (length (ready s)) s ++ heads (length (ready (fifo_cycle s))) (fifo_cycle s)) /\
+    exists o, snd (step si (ARun (HStep t))) = RExc (ECancel o).
+Proof.
+  intros R Hr Cc Hh Rt Hs Hw Hctl Hin0 Ok1 Ok2.
+  assert (L : LInvY t c s).
+  { constructor; try assumption; [apply Rt|].
+    destruct (k_must (tasks s t)); [now left|right]. split; [reflexivity|]. exact (conj Rt (conj Cc Hh)). }
+  assert (Fin : forall n s0, foundy t c (heads n s0) ->
+            exists si, In (si, HStep t) (heads n s0) /\ exists o, snd (step si (ARun (HStep t))) = RExc (ECancel o)).
+  { intros n s0 [si [Hi [Li Hm]]]. exists si. split; [exact Hi|].
+    destruct (heads_in n s0 si _ Hi) as [r Er]. apply (own_result t si r Er Hm). apply Li. }
+  assert (Second : forall s1, s1 = fifo_cycle s -> LInvY t c s1 -> k_must (tasks s1 t) = true ->
+            exists si, In (si, HStep t) (heads (length (ready s1)) s1) /\
+                       exists o, snd (step si (ARun (HStep t))) = RExc (ECancel o)).
+  { intros s1 Es L1 Hm1. pose proof (ly_step _ _ _ L1) as Hin1.
+    destruct (in_split _ _ Hin1) as [pre1 [post1 E1]].
+    assert (Hl1 : length pre1 < length (ready s1)) by (rewrite E1, app_length; cbn; lia).
+    subst s1. apply Fin. exact (phasey_step t c _ (fifo_cycle s) pre1 post1 L1 Hm1 E1 Hl1 Ok2). }
+  assert (First : foundy t c (heads (length (ready s)) s) \/
+                  (LInvY t c (fifo_cycle s) /\ k_must (tasks (fifo_cycle s) t) = true)).
+  { destruct (delivery_alive s c R Cc Hh (ex_intro _ t Rt)) as [_ Hin].
+    destruct (in_split _ _ Hin) as [pre [post E]].
+    assert (Hl : length pre < length (ready s)) by (rewrite E, app_length; cbn; lia).
+    exact (phasey_deliver t c (length (ready s)) s pre post L E Hl Ok1). }
+  destruct First as [F|[L1 Hm1]].
+  - destruct (Fin _ _ F) as [si [Hi Hres]]. exists si. split; [apply in_or_app; now left|exact Hres].
+  - destruct (Second _ eq_refl L1 Hm1) as [si [Hi Hres]]. exists si. split; [apply in_or_app; now right|exact Hres].
+Qed.
+
+(* ---------------- non-vacuity of the two latency theorems ----------------
+   Task 1 cancels its own scope 1 while running (the delivery callback skips the running task and stays
+   scheduled), then (a) sleeps forever / (b) calls checkpoint_if_cancelled.  All premises hold, the covered-cycle
+   predicates included, and the observed schedules are
+     (a) [HDeliver 1] ; [HWake 1 5; HDeliver 1]       (b) [HDeliver 1; HStep 1] ; [HDeliver 1]. *)
+Definition lat_ops : list op := [ANewRoot; ANewScope 1 None false; AEnter 1 1; ACancel 1 1; ASleep 1 None].
+Definition spin_ops : list op := [ANewRoot; ANewScope 1 None false; AEnter 1 1; ACancel 1 1; ACkIf 1].
+
+Example lat_reach : reach_ok (final step init lat_ops).
+Proof. exists lat_ops. split; [vm_compute; reflexivity|reflexivity]. Qed.
+
+Example spin_reach : reach_ok (final step init spin_ops).
+Proof. exists spin_ops. split; [vm_compute; reflexivity|reflexivity]. Qed.
+
+Ltac vc := vm_compute; reflexivity.
+
+Example lat_premises :
+  let s := final step init lat_ops in
+  running s <> Some 1 /\ s_cancelled (scopes s 1) = true /\ s_host (scopes s 1) <> None /\ reaches s 1 1 /\
+  k_must (tasks s 1) = false /\ k_started (tasks s 1) = true /\ k_waiter (tasks s 1) = Some 5 /\
+  f_st (futs s 5) = FPend /\ wait_ctl (k_ctl (tasks s 1)) = true /\
+  cycle_ok 1 5 (length (ready s)) s /\ cycle_ok 1 5 (length (ready (fifo_cycle s))) (fifo_cycle s) /\
+  map snd (heads (length (ready s)) s ++ heads (length (ready (fifo_cycle s))) (fifo_cycle s))
+  = [HDeliver 1; HWake 1 5; HDeliver 1].
+Proof.
+  cbv zeta. set (s := final step init lat_ops).
+  assert (E1 : ready s = [HDeliver 1]) by vc.
+  assert (E2 : ready (fifo_cycle s) = [HWake 1 5; HDeliver 1]) by vc.
+  assert (F2 : f_st (futs (fifo_cycle s) 5) = FCanc 2) by vc.
+  refine (conj _ (conj _ (conj _ (conj _ (conj _ (conj _ (conj _ (conj _ (conj _ (conj _ (conj _ _))))))))))).
+  - assert (E : running s = None) by vc. rewrite E. discriminate.
+  - vc.
+  - assert (E : s_host (scopes s 1) = Some 1) by vc. rewrite E. discriminate.
+  - split; [vc|]. exists 1. split; [vc|apply vis_here].
+  - vc.
+  - vc.
+  - vc.
+  - vc.
+  - vc.
+  - rewrite E1. cbn [length cycle_ok]. rewrite E1. right. split; [|exact I].
+    split; [reflexivity|]. split; [discriminate|exact I].
+  - rewrite E2. cbn [length cycle_ok]. rewrite E2. left. split; [reflexivity|]. rewrite F2. discriminate.
+  - vc.
+Qed.
+
+Example spin_premises :
+  let s := final step init spin_ops in
+  running s <> Some 1 /\ s_cancelled (scopes s 1) = true /\ s_host (scopes s 1) <> None /\ reaches s 1 1 /\
+  k_started (tasks s 1) = true /\ k_waiter (tasks s 1) = None /\ k_ctl (tasks s 1) = CYield YCkIf /\
+  In (HStep 1) (ready s) /\
+  cycle_oky 1 (length (ready s)) s /\ cycle_oky 1 (length (ready (fifo_cycle s))) (fifo_cycle s) /\
+  map snd (heads (length (ready s)) s ++ heads (length (ready (fifo_cycle s))) (fifo_cycle s))
+  = [HDeliver 1; HStep 1; HDeliver 1].
+Proof.
+  cbv zeta. set (s := final step init spin_ops).
+  assert (E1 : ready s = [HDeliver 1; HStep 1]) by vc.
+  assert (E1' : ready (run_head s) = [HStep 1; HDeliver 1]) by vc.
+  assert (E2 : ready (fifo_cycle s) = [HDeliver 1]) by vc.
+  refine (conj _ (conj _ (conj _ (conj _ (conj _ (conj _ (conj _ (conj _ (conj _ (conj _ _)))))))))).
+  - assert (E : running s = None) by vc. rewrite E. discriminate.
+  - vc.
+  - assert (E : s_host (scopes s 1) = Some 1) by vc. rewrite E. discriminate.
+  - split; [vc|]. exists 1. split; [vc|apply vis_here].
+  - vc.
+  - vc.
+  - vc.
+  - rewrite E1. right. now left.
+  - rewrite E1. cbn [length cycle_oky]. rewrite E1.
+    split; [right; split; [reflexivity|split; [discriminate|exact I]]|].
+    rewrite E1'. split; [now left|exact I].
+  - rewrite E2. cbn [length cycle_oky]. rewrite E2.
+    split; [right; split; [reflexivity|split; [discriminate|exact I]]|exact I].
+  - vc.
+Qed.
+
+(* the theorems applied to these states *)
+Example lat_instance :
+  let s := final step init lat_ops in
+  exists si, In (si, HWake 1 5) (heads (length (ready s)) s ++ heads (length (ready (fifo_cycle s))) (fifo_cycle s)) /\
+    ((exists o, snd (step si (ARun (HWake 1 5))) = RExc (ECancel o)) \/
+     (exists v, f_st (futs si 5) = FRes v) \/ (exists e, f_st (futs si 5) = FExc e)).
+Proof.
+  cbv zeta. destruct lat_premises as [H1 [H2 [H3 [H4 [H5 [H6 [H7 [H8 [H9 [H10 [H11 _]]]]]]]]]]].
+  exact (cancel_latency_le_2_cycles 1 5 1 _ lat_reach H1 H2 H3 H4 H5 H6 H7 H8 H9 H10 H11).
+Qed.
+
+Example spin_instance :
+  let s := final step init spin_ops in
+  exists si, In (si, HStep 1) (heads (length (ready s)) s ++ heads (length (ready (fifo_cycle s))) (fifo_cycle s)) /\
+    exists o, snd (step si (ARun (HStep 1))) = RExc (ECancel o).
+Proof.
+  cbv zeta. destruct spin_premises as [H1 [H2 [H3 [H4 [H5 [H6 [H7 [H8 [H9 [H10 _]]]]]]]]]].
+  exact (ckif_spin_terminates 1 1 _ spin_reach H1 H2 H3 H4 H5 H6 H7 H8 H9 H10).
+Qed.
+
+(* non-vacuity of loop_goes_idle with a leftover callback: the root task cancels and leaves its scope and
+   finishes; the scope's delivery callback is still scheduled, and one head run removes it *)
+Definition idle2_ops : list op :=
+  [ANewRoot; ANewScope 1 (Some 5%Z) false; AEnter 1 1; ACancel 1 1; AExit 1 1 false; AFinish 1 0].
+
+Example idle2_premises :
+  let s := final step init idle2_ops in
+  reach_ok s /\ all_done s /\ ready s = [HDeliver 1] /\ ready (run_head s) = [] /\ timers (run_head s) = [].
+Proof.
+  cbv zeta. set (s := final step init idle2_ops).
+  assert (R : reach_ok s) by (exists idle2_ops; split; [vm_compute; reflexivity|reflexivity]).
+  split; [exact R|]. split; [|repeat split; vm_compute; reflexivity].
+  destruct (reach_sinv s R) as [[_ C] _]. intros t.
+  assert (En : ntask s = 2) by (vm_compute; reflexivity).
+  destruct (Nat.eq_dec t 1) as [->|Hn].
+  - split; [vm_compute; reflexivity|]. intros _. vm_compute. discriminate.
+  - assert (Na : ~ alloc_t s t) by (unfold alloc_t; rewrite En; lia).
+    split; [exact (c_unalloc _ C t Na)|]. intros A. contradiction.
+Qed.
